@@ -87,6 +87,13 @@ mod trace {
         let filter = tracing_subscriber::filter::EnvFilter::from_env("CLN_PLUGIN_LOG");
         let sender = start_writer(out);
 
+        #[cfg(breez_trampoline_verif)]
+        return crate::verif::seam::install_subscriber(Box::new(
+            tracing_subscriber::registry()
+                .with(filter)
+                .with(LoggingLayer::new(sender)),
+        ));
+
         tracing_subscriber::registry()
             .with(filter)
             .with(LoggingLayer::new(sender))
